@@ -267,6 +267,13 @@ func (n *AbsfsNFS) UpdatePolicyOptions(newPolicy PolicyOptions) error {
 		return fmt.Errorf("cannot change Squash mode at runtime")
 	}
 
+	// A nil RateLimitConfig means "use the defaults", exactly as in New: without it
+	// EnableRateLimiting would be reported while no limiter is in force.
+	if newPolicy.RateLimitConfig == nil {
+		config := DefaultRateLimiterConfig()
+		newPolicy.RateLimitConfig = &config
+	}
+
 	// Drain in-flight requests: Lock() blocks until all RLock holders
 	// (in-flight requests) release. New requests using TryRLock will fail
 	// and return NFSERR_JUKEBOX so clients retry.
